@@ -70,6 +70,22 @@ def gen_control(repo):
     need(r"inbuf\[oldlen\]\s*=\s*'\\0';", ll, 'lloadfilefd: terminator store')
     need(r'if\s*\(\s*!striptab\s*\)\s*\{\s*\*buf\s*=\s*inbuf;\s*return\s+oldlen;', ll, 'lloadfilefd: raw mode')
 
+    # statements the literal array model (Model/LoadListArr.v) transcribes
+    cbf = func_body(src, 'compact_buffer', rel)
+    need(r'const\s+size_t\s+jlen\s*=\s*strnlen\(\s*inbuf\s*\+\s*j\s*,\s*oldlen\s*-\s*j\s*\)\s*;', cbf, 'compact_buffer: strnlen')
+    need(r'if\s*\(\s*j\s*!=\s*k\s*\)\s*memmove\(\s*inbuf\s*\+\s*k\s*,\s*inbuf\s*\+\s*j\s*,\s*jlen\s*\)\s*;', cbf, 'compact_buffer: memmove')
+    need(r"j\s*\+=\s*jlen\s*\+\s*1\s*;\s*k\s*\+=\s*jlen\s*;\s*inbuf\[k\+\+\]\s*=\s*'\\0'\s*;", cbf, 'compact_buffer: index updates and terminator')
+    need(r'if\s*\(\s*k\s*!=\s*oldlen\s*\+\s*1\s*\)\s*\{\s*\*buf\s*=\s*realloc\(\s*inbuf\s*,\s*k\s*\)\s*;', cbf, 'compact_buffer: shrink')
+    lfd = func_body(src, 'loadlistfd', rel)
+    need(r"const\s+size_t\s+l\s*=\s*strlen\(\s*buf\s*\+\s*k\s*\)\s*;\s*memset\(\s*buf\s*\+\s*k\s*,\s*'\\0'\s*,\s*l\s*\)\s*;\s*k\s*\+=\s*l\s*;\s*haserr\s*=\s*1\s*;", lfd, 'loadlistfd: rejected entry wiped completely')
+    need(r'k\s*\+=\s*strlen\(\s*buf\s*\+\s*k\s*\)\s*\+\s*1\s*;', lfd, 'loadlistfd: step to the next entry')
+    need(r'if\s*\(\s*haserr\s*\)\s*i\s*=\s*compact_buffer\(\s*&buf\s*,\s*buf\s*,\s*datalen\s*\)\s*;\s*else\s+i\s*=\s*datalen\s*;', lfd, 'loadlistfd: second compaction')
+    need(r'\*bufa\s*=\s*data_array\(\s*j\s*,\s*i\s*,\s*buf\s*,\s*i\s*\)\s*;', lfd, 'loadlistfd: data_array call')
+    da = func_body(src, 'data_array', rel)
+    need(r'size_t\s+psize\s*=\s*\(\s*entries\s*\+\s*1\s*\)\s*\*\s*sizeof\(char \*\*\)\s*;', da, 'data_array: psize')
+    need(r'size_t\s+dsize\s*=\s*entries\s*\+\s*datalen\s*;', da, 'data_array: dsize')
+    need(r'void\s*\*buf\s*=\s*\(void \*\)\(\(\(uintptr_t\)ret\)\s*\+\s*psize\)\s*;\s*memmove\(\s*buf\s*,\s*ret\s*,\s*oldlen\s*\)\s*;', da, 'data_array: move behind the table')
+
     c['LOADLIST_MODE'] = int(one(r'lloadfilefd\(\s*fd\s*,\s*&buf\s*,\s*(\d+)\s*\)', func_body(src, 'loadlistfd', rel), 'loadlistfd mode'))
     li = func_body(src, 'loadintfd', rel)
     c['LOADINT_MODE'] = int(one(r'lloadfilefd\(\s*fd\s*,\s*&tmpbuf\s*,\s*(\d+)\s*\)', li, 'loadintfd mode'))
